@@ -8,6 +8,7 @@ import (
 
 	"github.com/go-text/typesetting/font"
 	"github.com/go-text/typesetting/font/opentype/tables"
+	"github.com/go-text/typesetting/language"
 	"pgregory.net/rapid"
 
 	"verif/internal/ev"
@@ -185,7 +186,8 @@ type structure struct {
 	hole      bool // some mapped position has glyph 0 (array entry 0, or delta arithmetic giving 0)
 	wraps     bool // 16-bit glyph arithmetic wraps around (format 4), or glyph ids exceed 0xFFFF (12)
 	abuts     bool // some unit starts right after the previous one ends
-	malformed bool // unsorted, overlapping, start > end, beyond U+10FFFF
+	inverted  bool // some segment/group has start > end
+	unordered bool // unsorted or overlapping segments/groups, codes beyond U+10FFFF
 	sentinel  bool // format 4 final 0xFFFF segment present
 	empty     bool
 }
@@ -203,21 +205,24 @@ func (st *subtable) structure() structure {
 	case 4:
 		s.units = len(st.Segs)
 		s.empty = len(st.Segs) == 0
+		prev := -1 // index of the previous segment with start <= end
 		for i, sg := range st.Segs {
-			if sg.Start > sg.End {
-				s.malformed = true
+			if sg.Start == 0xFFFF && sg.End == 0xFFFF && i == len(st.Segs)-1 {
+				s.sentinel = true
 			}
-			if i > 0 {
-				p := st.Segs[i-1]
-				if sg.Start <= p.End || sg.End <= p.End {
-					s.malformed = true
+			if sg.Start > sg.End {
+				s.inverted = true
+				continue
+			}
+			if prev >= 0 {
+				p := st.Segs[prev]
+				if sg.Start <= p.End {
+					s.unordered = true
 				} else if sg.Start == p.End+1 {
 					s.abuts = true
 				}
 			}
-			if sg.Start == 0xFFFF && sg.End == 0xFFFF && i == len(st.Segs)-1 {
-				s.sentinel = true
-			}
+			prev = i
 			if sg.Glyphs != nil && sg.RawRangeOffset == 0 {
 				for _, g := range sg.Glyphs {
 					if g == 0 {
@@ -229,13 +234,12 @@ func (st *subtable) structure() structure {
 						}
 					}
 				}
-			} else if sg.Start <= sg.End {
+			} else {
 				if uint32(sg.End)+uint32(sg.Delta) > 0xFFFF {
 					s.wraps = true
 				}
 				// does some code of the segment map to glyph 0 ?
-				z := uint16(0) - sg.Delta
-				if z >= sg.Start && z <= sg.End {
+				if z := uint16(0) - sg.Delta; z >= sg.Start && z <= sg.End {
 					s.hole = true
 				}
 			}
@@ -248,28 +252,34 @@ func (st *subtable) structure() structure {
 				s.hole = true
 			}
 		}
-		if uint64(st.First)+uint64(len(st.Glyphs)) > maxRune+1 {
-			s.malformed = true
+		if len(st.Glyphs) > 0 && uint64(st.First)+uint64(len(st.Glyphs))-1 > maxRune {
+			s.unordered = true
 		}
 	case 12, 13:
 		s.units = len(st.Groups)
 		s.empty = len(st.Groups) == 0
+		prev := -1
 		for i, g := range st.Groups {
-			if g.Start > g.End || g.End > maxRune {
-				s.malformed = true
+			if g.Start > g.End {
+				s.inverted = true
+				continue
 			}
-			if i > 0 {
-				p := st.Groups[i-1]
-				if g.Start <= p.End || g.End <= p.End {
-					s.malformed = true
+			if g.End > maxRune {
+				s.unordered = true
+			}
+			if prev >= 0 {
+				p := st.Groups[prev]
+				if g.Start <= p.End {
+					s.unordered = true
 				} else if g.Start == p.End+1 {
 					s.abuts = true
 				}
 			}
+			prev = i
 			if g.Glyph == 0 {
 				s.hole = true
 			}
-			if st.Format == 12 && g.Start <= g.End && uint64(g.Glyph)+uint64(g.End-g.Start) > 0xFFFF {
+			if st.Format == 12 && uint64(g.Glyph)+uint64(g.End-g.Start) > 0xFFFF {
 				s.wraps = true
 			}
 		}
@@ -327,6 +337,8 @@ func isSymbolID(st *subtable) bool { return st.Platform == 3 && st.Encoding == 0
 func checkSynth(t ev.TB, c *synthCase) {
 	data := c.serialize()
 	cc := *c // the value written on failure carries the verdict
+	ev.Journal("synth", c)
+	defer ev.JournalDone()
 	var (
 		cm       font.Cmap
 		err      error
@@ -348,7 +360,7 @@ func checkSynth(t ev.TB, c *synthCase) {
 	// structure of every subtable; the one selected is identified after processing
 	anyMalformed := false
 	for i := range c.Subtables {
-		if c.Subtables[i].structure().malformed {
+		if st := c.Subtables[i].structure(); st.inverted || st.unordered {
 			anyMalformed = true
 		}
 	}
@@ -366,15 +378,11 @@ func checkSynth(t ev.TB, c *synthCase) {
 	}
 	rp := checkCmap(cm, c.Exhaustive, c.hints())
 	sel, selStruct := c.selected(rp)
+	_ = sel // nil when two subtables have the selected format: selStruct is then their union
 	sh := shapeOfType(rp)
-	sh.malformed = selStruct.malformed
-	if sel == nil {
-		// cannot tell which subtable was chosen (two subtables of the same format): be
-		// conservative and use the union of their defects
-		sh.malformed = anyMalformed
-	}
+	sh.inverted, sh.unordered = selStruct.inverted, selStruct.unordered
 	cc.Selected = rp.typeName
-	if rp.counts[dPanic] > 0 && sh.malformed {
+	if rp.counts[dPanic] > 0 && (sh.inverted || sh.unordered) {
 		ev.Case(false, nil, "accepted", "panic_on_malformed")
 		return
 	}
@@ -393,8 +401,11 @@ func checkSynth(t ev.TB, c *synthCase) {
 	if selStruct.abuts {
 		labels = append(labels, "abuts")
 	}
-	if selStruct.malformed {
-		labels = append(labels, "malformed_accepted")
+	if selStruct.inverted {
+		labels = append(labels, "inverted_accepted")
+	}
+	if selStruct.unordered {
+		labels = append(labels, "unordered_accepted")
 	}
 	if selStruct.sentinel {
 		labels = append(labels, "sentinel")
@@ -463,7 +474,8 @@ func (c *synthCase) selected(rp *report) (*subtable, structure) {
 			m.hole = m.hole || s.hole
 			m.wraps = m.wraps || s.wraps
 			m.abuts = m.abuts || s.abuts
-			m.malformed = m.malformed || s.malformed
+			m.inverted = m.inverted || s.inverted
+			m.unordered = m.unordered || s.unordered
 		}
 		return nil, m
 	}
@@ -599,16 +611,16 @@ func genSegs4(t *rapid.T, base int) []seg4 {
 	}
 	// shapes that violate the specification (accepted tables must still obey the laws)
 	if len(segs) >= 2 {
-		switch rapid.IntRange(0, 19).Draw(t, "hostile") {
-		case 0: // unsorted
+		switch rapid.IntRange(0, 29).Draw(t, "hostile") {
+		case 27: // unsorted
 			i := rapid.IntRange(0, len(segs)-2).Draw(t, "swap")
 			segs[i], segs[i+1] = segs[i+1], segs[i]
-		case 1: // overlapping
+		case 28: // overlapping
 			i := rapid.IntRange(1, len(segs)-1).Draw(t, "ovl")
 			if segs[i].Glyphs == nil && segs[i].Start > 0 {
 				segs[i].Start = segs[i-1].End - uint16(rapid.IntRange(0, 1).Draw(t, "ovlby"))
 			}
-		case 2: // start > end
+		case 29: // start > end
 			i := rapid.IntRange(0, len(segs)-1).Draw(t, "inv")
 			if segs[i].Glyphs == nil && segs[i].Start != segs[i].End {
 				segs[i].Start, segs[i].End = segs[i].End, segs[i].Start
@@ -618,13 +630,51 @@ func genSegs4(t *rapid.T, base int) []seg4 {
 	return segs
 }
 
+// scriptEdges are the code points next to a boundary between a script range and a gap of
+// language.ScriptRanges (runes without script), where the script set computation has its cases.
+var scriptEdges16, scriptEdges32 = func() (e16 []int, e32 []int64) {
+	add := func(r rune) {
+		if r < 0 || r > maxRune {
+			return
+		}
+		if r <= 0xFFFF {
+			e16 = append(e16, int(r))
+		}
+		e32 = append(e32, int64(r))
+	}
+	for i, e := range language.ScriptRanges {
+		next := rune(maxRune + 1)
+		if i+1 < len(language.ScriptRanges) {
+			next = language.ScriptRanges[i+1].Start
+		}
+		if e.End+1 < next { // a gap follows
+			add(e.End - 1)
+			add(e.End)
+			add(e.End + 1)
+			add(next - 2)
+			add(next - 1)
+		}
+	}
+	return e16, e32
+}()
+
 func genBase16(t *rapid.T) int {
+	if rapid.IntRange(0, 3).Draw(t, "base_kind") == 0 {
+		return rapid.SampledFrom(scriptEdges16).Draw(t, "base_edge")
+	}
 	return rapid.SampledFrom([]int{0, 0, 0x20, 0x41, 0xF0, 0xFF, 0x100, 0x600, 0x621, 0x2000, 0xF000, 0xF020, 0xF0F0, 0xF100, 0xF120, 0xF200, 0xF220, 0xFE70, 0xFFF0, 0xFFFD}).Draw(t, "base")
 }
 
-func genGroups(t *rapid.T, format int) []group {
+func genGroups(t *rapid.T, format int, symbol bool) []group {
 	n := rapid.IntRange(0, 6).Draw(t, "ngroups")
-	base := rapid.SampledFrom([]int64{0, 0x20, 0xF0, 0x100, 0x600, 0xD7F0, 0xF000, 0xF100, 0xFFF0, 0xFFFF, 0x10000, 0x1F600, 0x2FFF0, 0xE0000, 0xE0100, 0xE01E0, 0xF0000, 0x10FF00, 0x10FFF0}).Draw(t, "gbase")
+	var base int64
+	if symbol {
+		base = int64(rapid.SampledFrom(puaBases).Draw(t, "pua_base"))
+	} else if rapid.IntRange(0, 3).Draw(t, "gbase_kind") == 0 {
+		base = rapid.SampledFrom(scriptEdges32).Draw(t, "gbase_edge")
+	} else {
+		base = rapid.SampledFrom([]int64{0, 0x20, 0xF0, 0x100, 0x600, 0xD7F0, 0xF000, 0xF100, 0xFFF0, 0xFFFF, 0x10000, 0x1F600, 0x2FFF0, 0xE0000, 0xE0100, 0xE01E0, 0xE01EF, 0xF0000, 0x10FF00, 0x10FFF0}).Draw(t, "gbase")
+	}
 	var gs []group
 	cur := base
 	for i := 0; i < n; i++ {
@@ -662,13 +712,13 @@ func genGroups(t *rapid.T, format int) []group {
 		cur = end
 	}
 	if len(gs) >= 1 {
-		switch rapid.IntRange(0, 24).Draw(t, "hostile") {
-		case 0: // unsorted
+		switch rapid.IntRange(0, 39).Draw(t, "hostile") {
+		case 36: // unsorted
 			if len(gs) >= 2 {
 				i := rapid.IntRange(0, len(gs)-2).Draw(t, "swap")
 				gs[i], gs[i+1] = gs[i+1], gs[i]
 			}
-		case 1: // overlapping
+		case 37: // overlapping
 			if len(gs) >= 2 {
 				i := rapid.IntRange(1, len(gs)-1).Draw(t, "ovl")
 				gs[i].Start = gs[i-1].End - uint32(rapid.IntRange(0, 2).Draw(t, "ovlby"))
@@ -676,12 +726,12 @@ func genGroups(t *rapid.T, format int) []group {
 					gs[i].Start = gs[i-1].End
 				}
 			}
-		case 2: // start > end (kept short: a wrapped walk would otherwise be 2^32 long)
+		case 38: // start > end (kept short: a wrapped walk would otherwise be 2^32 long)
 			i := rapid.IntRange(0, len(gs)-1).Draw(t, "inv")
 			if gs[i].Start != gs[i].End {
 				gs[i].Start, gs[i].End = gs[i].End, gs[i].Start
 			}
-		case 3: // beyond the code space
+		case 39: // beyond the code space
 			lo := uint32(rapid.SampledFrom([]int64{0x10FFFE, 0x110000, 0x110041, 0x1000041, 0x7FFFFFF0, 0x80000041, 0xFFFFFF00}).Draw(t, "beyond"))
 			l := uint32(rapid.IntRange(0, 40).Draw(t, "beyondlen"))
 			if lo+l < lo {
@@ -693,8 +743,13 @@ func genGroups(t *rapid.T, format int) []group {
 	return gs
 }
 
+// puaBases: where the symbol (U+F0xx) and legacy Arabic (U+F1xx simplified, U+F2xx traditional)
+// remappings of a (3,0) subtable look for glyphs.
+var puaBases = []int{0xF000, 0xF020, 0xF041, 0xF0F0, 0xF100, 0xF120, 0xF141, 0xF1B0, 0xF200, 0xF220, 0xF241, 0xF2B0}
+
 func genSubtable(t *rapid.T, format int, id [2]uint16) subtable {
 	st := subtable{Platform: id[0], Encoding: id[1], Format: format}
+	symbol := isSymbolID(&st) && rapid.IntRange(0, 3).Draw(t, "pua") != 0
 	switch format {
 	case 0:
 		st.Bytes = make([]int, 256)
@@ -705,21 +760,28 @@ func genSubtable(t *rapid.T, format int, id [2]uint16) subtable {
 			}
 		}
 	case 4:
-		st.Segs = genSegs4(t, genBase16(t))
+		base := genBase16(t)
+		if symbol {
+			base = rapid.SampledFrom(puaBases).Draw(t, "pua_base")
+		}
+		st.Segs = genSegs4(t, base)
 	case 6:
 		st.First = uint32(genBase16(t))
+		if symbol {
+			st.First = uint32(rapid.SampledFrom(puaBases).Draw(t, "pua_base"))
+		}
 		st.Glyphs = make([]uint16, rapid.SampledFrom([]int{0, 1, 2, 16, 17, 31, 32, 33, 255, 256, 257, 300}).Draw(t, "count"))
 		for i := range st.Glyphs {
 			st.Glyphs[i] = genGlyph16(t, "g")
 		}
 	case 10:
-		st.First = uint32(rapid.SampledFrom([]int64{0, 0x20, 0xFF, 0xFFF0, 0x10000, 0x1F600, 0xE0100, 0x10FFF0, 0x10FFFF, 0x110000, 0x1000041}).Draw(t, "first"))
+		st.First = uint32(rapid.SampledFrom([]int64{0, 0x20, 0xFF, 0xFFF0, 0x10000, 0x1F600, 0xE0100, 0xE01E0, 0x10FE00, 0x10FFF0, 0x10FFFF, 0x110000, 0x1000041}).Draw(t, "first"))
 		st.Glyphs = make([]uint16, rapid.SampledFrom([]int{0, 1, 2, 16, 17, 31, 32, 33, 255, 256, 257, 300}).Draw(t, "count"))
 		for i := range st.Glyphs {
 			st.Glyphs[i] = genGlyph16(t, "g")
 		}
 	case 12, 13:
-		st.Groups = genGroups(t, format)
+		st.Groups = genGroups(t, format, symbol)
 	}
 	return st
 }
@@ -741,8 +803,8 @@ func genSynth(t *rapid.T) *synthCase {
 		return a.Platform < b.Platform || a.Platform == b.Platform && a.Encoding < b.Encoding
 	})
 	c.FontPage = rapid.SampledFrom([]uint16{0, 0, 0, 0xB200, 0xB300, 0xB100, 0xDE00}).Draw(t, "font_page")
-	// true = only the BMP and the neighbourhood of every unit are evaluated rune by rune; the zero
-	// value (which shrinking moves towards) is the exhaustive evaluation
+	// one table in 16 is evaluated over all 0x110000 code points (draw 0, which shrinking moves
+	// towards); the others over the BMP and the neighbourhood of every unit
 	c.Exhaustive = rapid.IntRange(0, 15).Draw(t, "reduced_universe") == 0
 	return c
 }
